@@ -703,6 +703,12 @@ func (e *e4Engine) analyse(fn *ssa.Function, deck, eof tag) {
 			switch in := b.Instrs[idx].(type) {
 			case *ssa.Phi:
 				// resolved on the edge
+			case *ssa.Alloc:
+				// a new cell holds the zero value
+				if tagOfType(in.Type().(*types.Pointer).Elem()) {
+					s.vals[in] = tZero
+					delete(s.ints, in)
+				}
 			case *ssa.UnOp:
 				if f := parserField(in); f == "line" || f == "col" || f == "onDeck" {
 					if rel[in] {
